@@ -57,7 +57,8 @@ func genTCPConn(r *Rng, cfg []cfgKey, focus string) tcpConnSpec {
 	}
 	localKind := false
 	if (focus == "C05" && r.Chance(80)) || r.Chance(10) {
-		if k, ok := pickLocal([]int{4, 5, 6, 7, 8, 10, 11, 12, 13, 14, 15, 30, 31, 32}); ok {
+		if k, ok := pickLocal([]int{4, 5, 6, 7, 8, 10, 11, 12, 13, 14, 15, 30, 31, 32, 21, 33}); ok {
+			// 21: the empty domain name (the local host); 33: a zoned IPv6 literal as a domain name
 			sp.AKind, localKind = k, true
 			sp.Validate = k >= 30 || r.Chance(75)
 		}
@@ -264,6 +265,7 @@ func cTCPInto(ctx *Ctx, prop string, nCases int, shard0 int) {
 			ctx.Count("status:" + ob.Status)
 			ctx.Count(fmt.Sprintf("close:%d", ob.Close))
 			ctx.Count("kind:" + sp.Kind)
+			ctx.Count(fmt.Sprintf("akind:%d", sp.AKind))
 			classes[ob.Status] = true
 			ctx.NonTrivial(fmt.Sprintf("%+v", *sp))
 			tcpMonitors(ctx, prop, &j.spec, i, sp, ob, seenSalt)
@@ -417,7 +419,7 @@ func tcpMonitors(ctx *Ctx, prop string, cs *tcpCaseSpec, i int, sp *tcpConnSpec,
 			ctx.Monitor("C02/downstream-not-intact", fmt.Sprintf("client decrypted %d bytes (cksum %d), target sent %d (cksum %d)", len(ob.ClientPlain), cksum(ob.ClientPlain), len(tout), cksum(tout)), rep)
 		}
 	}
-	validKind := sp.AKind <= 3 || (sp.AKind >= 4 && sp.AKind <= 15 && sp.AKind != 9) || sp.AKind == 21 || (sp.AKind >= 30 && sp.AKind <= 32)
+	validKind := sp.AKind <= 3 || (sp.AKind >= 4 && sp.AKind <= 15 && sp.AKind != 9) || sp.AKind == 21 || (sp.AKind >= 30 && sp.AKind <= 33)
 	if sp.Kind == "honest" && sp.Corrupt == 0 && validKind && (!sp.Validate || tcpKindPublic(sp.AKind)) && sp.ConnectOK {
 		inCfg := false
 		for _, k := range cs.Cfg {
